@@ -185,6 +185,13 @@ Theorem C01td_interpreter_any_order_value_and_axis_order : forall n sl arr e0 pe
 Proof. exact exec_program_any_order_correct. Qed.
 Print Assumptions C01td_interpreter_any_order_value_and_axis_order.
 
+(* the default depth-first order passes the order check for every tree with distinct leaves
+   (the hypothesis of (9) is satisfiable for every tree; (7) is an instance of (9)) *)
+Theorem C01td_dfs_order_is_valid : forall l r, NoDup (leaves l ++ leaves r) ->
+  valid_order_b (Node l r) (traverse_dfs (Node l r)) = true.
+Proof. exact dfs_order_valid. Qed.
+Print Assumptions C01td_dfs_order_is_valid.
+
 (* non-vacuity: 'ab,bc->ca' -- the root can be done by tensordot, and needs the transpose
    [1;0]; a 3-tensor chain where an inner node is a tensordot without transpose *)
 Local Open Scope nat_scope.
